@@ -17,5 +17,12 @@ TEXT = {
         "note": _NOTE,
         "technique": "runtime monitoring: differential oracle (reference interpreter) over expression trees x transpose/adjoint towers, left and right products",
     },
+    "C03": {
+        "level": "Held on the executions observed: generated algebraic expressions (random and directed at the named "
+                 "simplifications) evaluated through cola's overloads/functions and independently on dense matrices; value, "
+                 "shape, dtype, operator-vs-array kind compared; shape-mismatched operand pairs must raise. Sampling, not proof.",
+        "note": _NOTE + "; NumPy-typed scalars are generated no wider than the operator they scale (wider ones are recorded as not judged, DESIGN 4.0)",
+        "technique": "runtime monitoring: differential oracle (dense evaluation of the same expression) with sub-expression blame; exception monitor for mismatched shapes",
+    },
 }
 NOT_APPLICABLE = {}
